@@ -79,6 +79,9 @@ Expected(nk, na, S, e) ==
                             ELSE IF S.parked # 0 THEN [same EXCEPT !.cur = S.parked, !.parked = 0]
                             ELSE [same EXCEPT !.exc = "ValueError"]
     [] e.op = "open"     -> [same EXCEPT !.cur = e.x, !.parked = 0]
+    \* cache.archive = x (what f.archive(x) of a decorated function does; x = 0: a null archive): from now on x is THE archive,
+    \* whatever had been parked by archived(False) is forgotten
+    [] e.op = "assign"   -> [same EXCEPT !.cur = e.x, !.parked = 0]
     [] e.op = "drop"     -> [same EXCEPT !.cur = 0, !.parked = 0]
     [] e.op = "archived" -> same
     [] OTHER -> same
